@@ -40,3 +40,43 @@ Inductive decoded :=
 | DOther (v : val).   (* decoding succeeded but the result contains a nil constant
                           (unknown constant tag): not a program the compiler produces *)
 
+
+(* decidable equality, used by the correspondence check to compare a decoded
+   program with the dump of the real one *)
+Fixpoint list_eqb {A : Type} (eqb : A -> A -> bool) (a b : list A) : bool :=
+  match a, b with
+  | [], [] => true
+  | x :: r, y :: s => eqb x y && list_eqb eqb r s
+  | _, _ => false
+  end.
+Definition bytes_eqb : bytes -> bytes -> bool := list_eqb Z.eqb.
+Definition binding_eqb (a b : binding) : bool :=
+  bytes_eqb (b_name a) (b_name b) && (b_line a =? b_line b) && (b_col a =? b_col b).
+Definition const_eqb (a b : const) : bool :=
+  match a, b with
+  | CString x, CString y => bytes_eqb x y
+  | CBytes x, CBytes y => bytes_eqb x y
+  | CInt x, CInt y => x =? y
+  | CFloat x, CFloat y => x =? y
+  | CBigInt x, CBigInt y => bytes_eqb x y
+  | _, _ => false
+  end.
+Definition funcode_eqb (a b : funcode) : bool :=
+  bytes_eqb (f_name a) (f_name b) && (f_line a =? f_line b) && (f_col a =? f_col b) &&
+  bytes_eqb (f_doc a) (f_doc b) && bytes_eqb (f_code a) (f_code b) &&
+  list_eqb Z.eqb (f_pclinetab a) (f_pclinetab b) &&
+  list_eqb binding_eqb (f_locals a) (f_locals b) &&
+  list_eqb Z.eqb (f_cells a) (f_cells b) &&
+  list_eqb binding_eqb (f_freevars a) (f_freevars b) &&
+  (f_maxstack a =? f_maxstack b) && (f_numparams a =? f_numparams b) &&
+  (f_numkwonly a =? f_numkwonly b) &&
+  Bool.eqb (f_hasvarargs a) (f_hasvarargs b) && Bool.eqb (f_haskwargs a) (f_haskwargs b).
+Definition program_eqb (a b : program) : bool :=
+  bytes_eqb (p_filename a) (p_filename b) &&
+  list_eqb binding_eqb (p_loads a) (p_loads b) &&
+  list_eqb bytes_eqb (p_names a) (p_names b) &&
+  list_eqb const_eqb (p_constants a) (p_constants b) &&
+  list_eqb binding_eqb (p_globals a) (p_globals b) &&
+  funcode_eqb (p_toplevel a) (p_toplevel b) &&
+  list_eqb funcode_eqb (p_functions a) (p_functions b) &&
+  Bool.eqb (p_recursion a) (p_recursion b).
